@@ -849,6 +849,10 @@ def slow_key(text: str) -> str:
     """which known slow shape an input that overran the budget belongs to"""
     if re.search(r"<\w+\s[^>\n]{5000,}", text):
         return "quadratic-start-tag-regex"
+    if text.count("<") > 50000:
+        # every iteration of the element loop copies the rest of the string (`xml[end_idx:]`, `strip()`) and
+        # scans all of it for a nested start tag (`xml.index(nested_tag)` from 0): quadratic in the number of elements
+        return "quadratic-element-loop"
     return "unclassified-slow-input"
 
 
@@ -896,7 +900,7 @@ def run(tier: str, driver_ok: bool) -> Result:
         for e in json.loads(f.read_text()):
             if "text_spec" in e:
                 sp = e["text_spec"]
-                text = sp["prefix"] + sp["repeat"] * sp["count"]
+                text = sp["prefix"] + sp["repeat"] * sp["count"] + sp.get("suffix", "")
             else:
                 text = e["text"]
             add("corpus", e.get("key", f.name), e["kind"], text)
@@ -1196,7 +1200,7 @@ def run(tier: str, driver_ok: bool) -> Result:
         o = load_outs[k]
         m = load_model.get(ci)
         try:
-            tk = c["bytes"][:100000].decode("utf-8", "replace")
+            tk = c["bytes"][:1100000].decode("utf-8", "replace")
         except Exception:  # noqa: BLE001
             tk = ""
         judge(c, o, m if m is not None else ("hang" if ci in load_hang else None), tasks[n_text + k][1], tk)
